@@ -337,5 +337,9 @@ Definition run_top (manual : bool) (p : prog) (extra : list bool) (s0 : st) : ob
 
 End Run.
 
+(* Commit / Rollback called on a handle that is not in a transaction (its ConnPool is the pool):
+   ErrInvalidTransaction, no driver call.  true = Commit *)
+Definition run_stray (l : list bool) : list cls := map (fun _ => CErr (mkErr EInvalidTx false)) l.
+
 Definition fault_at (k : option nat) : nat -> bool :=
   fun i => match k with Some k' => Nat.eqb i k' | None => false end.
